@@ -1,5 +1,6 @@
 CONSTANTS P = 43  A = 0  B = 7  Gx = 2  Gy = 12  N = 31  Mode = "sign"  RMax = 0
 CONSTANT ESet <- EFew
+CONSTANT SSet <- SAll
 CONSTANT DSet <- DAll
 SPECIFICATION Spec
 INVARIANT Holds
